@@ -95,10 +95,10 @@ Definition cls_C08 (i : term) : list Z :=
     ++ (if in_F19 ns then [19] else [])
     (* F25 at the level of bytes: -dot (EntropyOrder) with weights large enough for float64 rounding
        of score*cum to reach the integer part *)
-    ++ (if String.eqb (gs (gn i 1)) "dot" && in_F25_graph ns then [25] else [])
+    (* F28 (float accumulation order in edgeEntropyScore) is repaired in /repo (a9c740c): no class *)
   else if String.eqb op "ent" then
     (* F25: three or more edges on one side: the float accumulation order is visible *)
-    if in_F25_node (Z.of_nat (List.length (gl (gn i 3)))) then [25] else []
+    []
   else [].
 
 Definition in_known_class (i : term) : bool := match cls_C08 i with [] => false | _ => true end.
